@@ -386,6 +386,14 @@ Definition is_authorized (a : auth) (u : N) (r : request) : outcome serr (bool *
 Definition reply_with_error_generic (l : link) (fr : frame) (f : ffield) (ex : N) : outcome serr (list N) :=
   if dest_is_broadcast (f_dest fr) then Ok [] else format_ex l (f_tx fr) (f_dest fr) f ex.
 
+(* SessionTask::is_served: the frame is addressed to a unit id in the handler map (or is a broadcast,
+   which is never answered anyway) *)
+Definition is_served (units : list (N * St)) (d : dest) : bool :=
+  match d with
+  | DUnit u => match lookup u units with Some _ => true | None => false end
+  | DBroadcast => true
+  end.
+
 (* result: bytes written (nil = nothing written) or the error that ends the session, the unit
    states afterwards, the application calls made *)
 Definition handle_frame (l : link) (a : auth) (units : list (N * St)) (fr : frame)
@@ -394,10 +402,13 @@ Definition handle_frame (l : link) (a : auth) (units : list (N * St)) (fr : fram
   | [] => (Ok [], units, [])                                        (* "received an empty frame" *)
   | fv :: body =>
       match fcode_get fv with
-      | None => (reply_with_error_generic l fr (FUnknown fv) illegal_function, units, [])
+      | None =>
+          (if is_served units (f_dest fr) then reply_with_error_generic l fr (FUnknown fv) illegal_function else Ok [], units, [])
       | Some f =>
           match parse f body with
-          | None => (reply_with_error_generic l fr (FException f) illegal_data_value, units, [])
+          | None =>
+              (if is_served units (f_dest fr) then reply_with_error_generic l fr (FException f) illegal_data_value else Ok [],
+               units, [])
           | Some req =>
               match is_authorized a (dest_value (f_dest fr)) req with
               | Panic => (Panic, units, [])
